@@ -83,6 +83,13 @@ CLAIMED = {
     note="Level 'other': necessary structural clauses, not the byte-for-byte equality. Quick = ML-DSA-44 and -65 (K != L is needed to separate kappa += l from += k), thorough = all three. Trusted: abstract interpreter soundness, hash model.",
     technique="abstract interpretation over monomorphic MIR: symbolic hash absorb lists, generator probes, loop peeling + congruence invariants, path facts on tracked call results; piecewise-affine kernel exactness",
     engine="driver-ai"),
+ "C04": dict(
+    category="other",
+    text="Clauses of 'key generation is the FIPS 204 function of the seed', decided for every seed / generator output and all three parameter sets from one abstract run of keygen_from_seed and try_keygen_with_rng: K1 one 32-byte generator request fills xi, both entry points run the same key_gen_internal instance once and create identical hash instances, a failing generator gives Err with nothing computed; K2 (rho, rho', K) = H(xi|k|l) read as 32|64|32 bytes with the Table 1 constants in this order; K3 ExpandA: k*l SHAKE128 instances in row-major order absorbing rho|s|r; K4 ExpandS: l+k SHAKE256 instances absorbing rho'|IntegerToBytes(r,2); K5 tr = H(whole pkEncode(rho,t1), 64); K6 exact-copy provenance: pk.rho and sk.rho are H(xi|k|l)[0..32], sk.K is [96..128], pk.tr and sk.tr the 64 bytes of the tr hash, none rewritten; K7 CoeffFromThreeBytes (all 2^24 triples incl. the q-1/q boundary), CoeffFromHalfByte (both eta), Power2Round (all of Z_q) equal their FIPS definitions (C15 engine); K8 Power2Round applied once after full reduction of all coefficients. The ring arithmetic t = A s1 + s2 and the serialisers' inverse NTT/Montgomery precompute are not decided, so byte equality with pkEncode/skEncode is not established.",
+    design_ref="DESIGN.md §4 C04",
+    note="Level 'other': necessary structural clauses. Trusted: abstract interpreter soundness, hash model, lib/spec.py transcription.",
+    technique="abstract interpretation over monomorphic MIR: symbolic hash absorb lists and read offsets, generator probes, exact-copy provenance tags on byte arrays; piecewise-affine kernel exactness",
+    engine="driver-ai"),
  "C08": dict(
     category="other",
     text="Clauses decided statically. R1: HintBitUnpack run on 78 (x3 sets) abstract input classes generated from (k, omega) - count above omega, count below the running index (every polynomial, two prefix shapes and the boundary member), non-increasing / repeated positions, non-zero unused bytes, each at first/middle/last position - every member of an error class is definitely rejected, every member of a canonical class definitely accepted. R2: encoder and decoder of sig/pk/sk use identical byte ranges that tile [0, LEN) and equal the FIPS 204 layout. R3: BitUnpack accepts exactly [-a, b] for every (a, b) in use (total when a+b+1 is a power of two). Not decided: re-encode identity for every accepted byte string and the bit-level bijection.",
@@ -127,7 +134,7 @@ man = {
  "engines": [
    {"name": "cfg-matrix", "path": "checks/c17.py", "serves_properties": ["C17"], "kind_free_text": "feature-configuration matrix: rustc lints + MIR fingerprints"},
    {"name": "driver-facts", "path": "driver/src/facts.rs", "serves_properties": ["C16", "C17"], "kind_free_text": "type/layout/drop-glue/call-graph facts"},
-   {"name": "driver-ai", "path": "driver/src/ai/", "serves_properties": ["C02", "C03", "C06", "C07", "C08", "C10", "C12", "C13", "C14", "C15", "C18"], "kind_free_text": "abstract interpreter over monomorphic MIR"},
+   {"name": "driver-ai", "path": "driver/src/ai/", "serves_properties": ["C02", "C03", "C04", "C06", "C07", "C08", "C10", "C12", "C13", "C14", "C15", "C18"], "kind_free_text": "abstract interpreter over monomorphic MIR"},
    {"name": "driver", "path": "driver/", "serves_properties": sorted(CLAIMED), "kind_free_text": "rustc_private driver over type-checked monomorphic MIR (facts, call graph, abstract interpretation)"},
  ],
  "checks": checks,
